@@ -46,7 +46,9 @@ RULE = (
     "long-lived (one per flavour and dim per worker, shared by all shapes, T and masks), and a history "
     "pass drives ONE fresh object per (flavour, dim) (6 single-head + 3 multi-headed) through every third "
     "of those families with rank, batch shape, T and mask changing, train/eval alternating - each result "
-    "== a fresh object's; (6) one larger instance: key (7,50,5,K), per-row / shared / no mask, full and "
+    "== a fresh object's; (6b) LONG SEQUENCES: key (3,1300,2,K) (thorough also T=2600, 520) whose batch rows are "
+    "left-padded (every leading block wholly masked), right-padded, a single kept position, all kept, sparse - all "
+    "relations, every flavour; (6) one larger instance: key (7,50,5,K), per-row / shared / no mask, full and "
     "broadcast query, dim 1 and -3, all flavours incl. 4 heads (3 fixed permutations instead of 50!). "
     "On the same 687 families additionally: (7) argument identity - one tensor object as key and value "
     "(all 16 bias-flag subsets on the flag families), and the query as a view into the key's storage where "
@@ -813,13 +815,53 @@ def _run_large(ctx, spec, tier, seed):
     ctx.sample({"part": "large", "key": [B1, T, B2, "K"], "masks": "per row, shared over the first axis, None"})
 
 
+# ================================================================== long sequences (round 6)
+def _run_long(ctx, spec, tier, seed):
+    """key (3, T, 2, K) with T = 1300 (thorough: also 2600, 520): sequence lengths beyond any block / chunk size a
+    memory-saving implementation would use.  Per batch row one of: left-padded (only a trailing stretch kept, so every
+    leading block is wholly masked), right-padded, a single kept position (first / last / middle), everything kept, a
+    sparse random subset.  All relations of the property as for the small scope (bounds, blindness to masked content,
+    permutations = reversal / rotation / a transposition, broadcast query)."""
+    rng = random.Random(f"c20-long-{seed}")
+    for T in ((1300,) if tier == "quick" else (1300, 2600, 520)):
+        B1, B2 = 3, 2
+
+        def fill(shape):
+            n = 1
+            for s_ in shape:
+                n *= s_
+            return torch.tensor([rng.randint(-8, 8) / 4.0 for _ in range(n)], dtype=torch.float32).view(shape)
+
+        k = fill((B1, T, B2, KMAX))
+        v = fill((B1, T, B2, DV))
+        v[..., DV - 1] = 1.0
+        mask = torch.zeros(B1, T, B2, dtype=torch.bool)
+        L = 1 + rng.randrange(40)
+        rows = [("left-padded", range(T - L, T)), ("right-padded", range(0, L)), ("last-only", [T - 1]),
+                ("middle-only", [T // 2 + 7]), ("all", range(T)), ("sparse", rng.sample(range(T), 9))]
+        rng.shuffle(rows)
+        for (b1, b2), (_, keep) in zip(itertools.product(range(B1), range(B2)), rows):
+            mask[b1, list(keep), b2] = True
+        cfgs = SINGLE_CFGS + [_mha_cfg(2, 0, (True, False, True, False))]
+        for qshape in ((B1, B2, QMAX), (1, B2, QMAX)):
+            q = fill(qshape)
+            for m in (mask, None):
+                prep = _prepare(1, q, k, v, m)
+                for cfg in cfgs:
+                    for dim in ((1, -3) if cfg["kind"] != "mha" else (1,)):
+                        _eval_case(ctx, cfg, seed, 1, dim, *_slice_for(cfg, q, k, v), m, prep, True)
+                        ctx.count("long-sequence-cases")
+    ctx.sample({"part": "long", "key": [3, "T=1300", 2, "K"],
+                "mask_rows": "left-padded, right-padded, single kept position, all kept, sparse"})
+
+
 # ================================================================================ driver
 NSLICES = 64  # co-prime with the inner (spelling x T) periods 9 and 15, so slices are balanced
 
 
 def shards(tier, seed):
     # the cheap parts first, so a tight wall budget can never skip them
-    return ([{"part": "params"}, {"part": "large"}] +
+    return ([{"part": "params"}, {"part": "large"}, {"part": "long"}] +
             [{"part": "history", "cfg": i} for i in range(len(HIST_CFGS))] +
             [{"part": "modes", "cfg": i} for i in range(len(HIST_CFGS))] +
             [{"part": "lifecycle", "cfg": i} for i in range(len(HIST_CFGS))] +
@@ -865,6 +907,9 @@ def run_shard(spec, tier, seed):
         return ctx
     if spec["part"] == "history":
         _run_history(ctx, spec, tier, seed)
+        return ctx
+    if spec["part"] == "long":
+        _run_long(ctx, spec, tier, seed)
         return ctx
     if spec["part"] == "large":
         _run_large(ctx, spec, tier, seed)
